@@ -39,8 +39,14 @@ def main():
     res = {}
     try:
         sh(["git", "-C", lr, "apply", patch], check=True)
-        sh(["rsync", "-a", "--delete", "--exclude", ".git", "--exclude", "work", "--exclude", "replay",
-            VERIF + "/", lv + "/"], check=True)
+        for attempt in range(3):
+            # exit status 24 = "some files vanished" (a check running in /verif meanwhile): retry
+            rr = sh(["rsync", "-a", "--delete", "--exclude", ".git", "--exclude", "work", "--exclude", "replay",
+                     VERIF + "/", lv + "/"])
+            if rr.returncode == 0:
+                break
+        if rr.returncode not in (0, 24):
+            raise RuntimeError("rsync failed: %s" % rr.returncode)
         for c in ("harness/Cargo.toml", "harness-alloc/Cargo.toml"):
             p = os.path.join(lv, c)
             s = open(p).read().replace('path = "/repo"', 'path = "%s"' % lr)
